@@ -55,6 +55,9 @@ pub enum Mutation {
     AmountPow(u8),
     DecimalsWord(u32),
     HighBitsInTag,
+    InnerTrailing(u8),
+    InnerDirtyWord(u8),
+    InnerDirtyPadding,
 }
 
 #[derive(Serialize, Deserialize, Clone, Debug, PartialEq, Eq, Hash)]
@@ -179,7 +182,7 @@ impl World for WorldC {
             let op = match rng.weighted(&[4, 10, 1]) {
                 0 => COp::Msg(gen_msg(rng)),
                 1 => {
-                    let m = match rng.below(11) {
+                    let m = match rng.below(14) {
                         0 => Mutation::BitFlip(rng.next_u64() as u32),
                         1 => Mutation::WordAdd { word: rng.below(24) as u16, delta: *rng.pick(&[1i16, -1, 32, -32, 31, 64]) },
                         2 => Mutation::WordHuge { word: rng.below(24) as u16 },
@@ -190,7 +193,10 @@ impl World for WorldC {
                         7 => Mutation::InnerTag(*rng.pick(&[2u32, 3, 4, 5, 255, 256])),
                         8 => Mutation::AmountPow(*rng.pick(&[127u8, 128, 200, 255])),
                         9 => Mutation::DecimalsWord(*rng.pick(&[256u32, 257, 65535, 1 << 31])),
-                        _ => Mutation::HighBitsInTag,
+                        10 => Mutation::HighBitsInTag,
+                        11 => Mutation::InnerTrailing(rng.below(3) as u8),
+                        12 => Mutation::InnerDirtyWord(rng.below(2) as u8),
+                        _ => Mutation::InnerDirtyPadding,
                     };
                     COp::Hostile { base: gen_msg(rng), m }
                 }
@@ -269,6 +275,21 @@ impl World for WorldC {
                         AMsg::Transfer { id, src, dst, amount, data } => enc_transfer(inner_tag, id, src, dst, amount_w.unwrap_or(w(*amount)), data),
                         AMsg::Deploy { id, name, symbol, decimals, minter } => enc_deploy(inner_tag, id, name.as_bytes(), symbol.as_bytes(), dec_w.unwrap_or(w(*decimals as u128)), minter),
                     };
+                    let mut inner = inner;
+                    match m {
+                        Mutation::InnerTrailing(k) => inner.extend(std::iter::repeat(0u8).take(32 * (1 + *k as usize % 3))),
+                        Mutation::InnerDirtyWord(wd) => {
+                            let idx = [0usize, 4][*wd as usize % 2] * 32;
+                            if inner.len() > idx + 32 {
+                                inner[idx + 29] ^= 0x01;
+                            }
+                        }
+                        Mutation::InnerDirtyPadding => {
+                            let l = inner.len();
+                            inner[l - 1] ^= 0x01;
+                        }
+                        _ => {}
+                    }
                     let mut bytes = enc_hub(outer_tag, h.chain.as_bytes(), &inner);
                     match m {
                         Mutation::BitFlip(b) => {
@@ -308,6 +329,9 @@ impl World for WorldC {
                         Mutation::AmountPow(_) => "amount_out_of_range",
                         Mutation::DecimalsWord(_) => "decimals_out_of_range",
                         Mutation::HighBitsInTag => "high_bits_in_tag",
+                        Mutation::InnerTrailing(_) => "inner_trailing_word",
+                        Mutation::InnerDirtyWord(_) => "inner_dirty_static_word",
+                        Mutation::InnerDirtyPadding => "inner_dirty_padding",
                     }));
                     if !check_bytes(&env, ctx, &bytes, "mutated encoding") {
                         break;
